@@ -86,8 +86,8 @@ PROPS["C03"] = {
 }
 
 PROPS["C04"] = {
-    "level_text": "Theorems: roaring's bit-sliced GE and LE comparisons are correct for ALL int64 pairs (induction over the 63 magnitude slices) while EQ/GT/LT/RANGE are refuted with witnesses; every numeric operator of the repaired index (built from GE/LE) selects exactly the ids satisfying the ordinary comparison; finite-set algebra of AND/OR/complement. The faithful Gallina model of metadata_index*.go (keys, prefix-based existence, early exits, error branches, float fixed-point conversion via float64 multiply + truncation) is compared with the code AND with a document-store specification on every generated history and filter tree. Filter operands travel as typed values; the model (float_fix), not the implementation, converts them to two-decimal fixed point.",
-    "level_note": "Trusted: as C02; fmt %v rendering of operands and Go map iteration (irrelevant for supported types). The end-to-end refinement 'index state simulates the document store for every history' is decided per run by the extracted specification (spec_search) on every sampled case, not closed as one Coq theorem (partial).",
+    "level_text": "Theorems: roaring's bit-sliced GE and LE comparisons are correct for ALL int64 pairs (induction over the 63 magnitude slices) while EQ/GT/LT/RANGE are refuted with witnesses; every numeric operator of the repaired index (built from GE/LE) selects exactly the ids satisfying the ordinary comparison; finite-set algebra of AND/OR/complement; REFINEMENT over histories, closed end to end: after ANY history of adds and removals the index state is the document store (live set, field:value keys, last numeric value per field), every single filter (numeric comparators, eq/ne/in/not_in, exists/not_exists on numeric and categorical fields) selects exactly the documents the store selects, and the WHOLE search (conjunction with early exit, AND/OR groups with precedence over plain filters, empty group = all live, final ordering) returns exactly the Boolean combination the document store gives (C04_search_refines_document_store). The faithful Gallina model of metadata_index*.go (keys, prefix-based existence, early exits, error branches, float fixed-point conversion via float64 multiply + truncation) is compared with the code AND with a document-store specification on every generated history and filter tree. Filter operands travel as typed values; the model (float_fix), not the implementation, converts them to two-decimal fixed point.",
+    "level_note": "Trusted: as C02; fmt %v rendering of operands and Go map iteration (irrelevant for supported types). The end-to-end theorem is about requests whose filters are well formed for the field's kind (filters_ok); error branches, early exits over erroneous filters and Not() wrappers are compared with the code and with the extracted specification (spec_search) on every run.",
     "correspondence": "metadata_index.go/metadata_index_search.go ~ Model.Metadata; roaring BSI compareValue ~ Model.BSI (checker 401)",
     "nontrivial_min_tokens": 20,
 }
